@@ -183,4 +183,47 @@ funclit 1 in (dht *FullRT) getValues(ctx context.Context, key string) (<-chan Re
   ghostvar $v []byte = nil
   chan_inv valCh : $ok && $msg.Val == $v && $msg.From == p
   ghost at call(Validate): $ok = ($ret0 == nil && $arg0 == key); $v = $arg1
+
+# ---- provider search of the accelerated client (C08) ---------------------------
+# Same rules as the standard client: psTryAdd is the only gate to the result
+# channel (new ID and below count, or count 0); the network is asked only while
+# fewer than count providers were found; the channel is closed on every path.
+role psTryAdd(p peer.ID) bool in (dht *FullRT) findProvidersAsyncRoutine(ctx context.Context, key multihash.Multihash, count int, peerOut chan peer.AddrInfo)
+  modifies *ps
+role psSize() int in (dht *FullRT) findProvidersAsyncRoutine(ctx context.Context, key multihash.Multihash, count int, peerOut chan peer.AddrInfo)
+  pure
+
+funclit 0 in (dht *FullRT) findProvidersAsyncRoutine(ctx context.Context, key multihash.Multihash, count int, peerOut chan peer.AddrInfo)
+  props C08
+  requires findAll == (count == 0) && count >= 0 && ps != nil
+  ensures [added-rule] imp(result, has(ps, p) && !old(has(ps, p)) && (old(len(ps)) < count || findAll))
+  ensures [unchanged-otherwise] imp(!result, len(ps) == old(len(ps)) && allT(x, peer.ID, has(ps, x) == old(has(ps, x))))
+  ensures [cap] imp(!findAll && old(len(ps)) <= count, len(ps) <= count)
+
+func (dht *FullRT) findProvidersAsyncRoutine(ctx context.Context, key multihash.Multihash, count int, peerOut chan peer.AddrInfo)
+  props C08
+  requires count >= 0 && dht.ProviderManager != nil && dht.bucketSize > 0 && dht.ipDiversityFilterLimit >= 0
+  ghostvar $ok bool = false
+  ghostvar $last peer.ID = any
+  chan_inv peerOut : $ok && $msg.ID == $last
+  modifies *
+  ensures [closed] tagged("closed:peerOut")
+  ghost at call(psTryAdd): $ok = $ret0; $last = $arg0
+  ghost at before call(GetProviders): assert($arg1 == key)
+  loop 0 invariant [below-count-while-local] (findAll || len(ps) < count)
+  loop 0 invariant findAll == (count == 0)
+  loop 0 invariant ps != nil
+  ghost at before call(GetClosestPeers): assert(findAll || len(ps) < count)
+  ghost at before call(execOnMany): assert($arg2 == peers)
+
+funclit 2 in (dht *FullRT) findProvidersAsyncRoutine(ctx context.Context, key multihash.Multihash, count int, peerOut chan peer.AddrInfo)
+  props C08
+  ghostvar $ok bool = false
+  ghostvar $last peer.ID = any
+  ghostvar $sz int = 0
+  chan_inv peerOut : $ok && $msg.ID == $last
+  ghost at call(psTryAdd): $ok = $ret0; $last = $arg0
+  ghost at before call(GetProviders): assert($arg1 == p && $arg2 == key)
+  ghost at call(psSize)#0: $sz = $ret0
+  ghost at before call(cancelquery): assert(!findAll && $sz >= count)
 @*/
